@@ -633,8 +633,35 @@ def refines(case, r, mset):
     return False
 
 
+SITE_FNS = {
+    "init-extensions-nondict": {"base._STIXBase.__init__"},
+    "init-extension-entry-nondict": {"base._STIXBase.__init__"},
+    "init-toplevel-props-missing": {"base._STIXBase.__init__"},
+    "init-custom-properties-falsy-nondict": {"base._STIXBase.__init__"},
+    "constraints-custom-granular-markings": {"base._STIXBase._check_object_constraints"},
+    "v20-marking-created-precision": {"v20.common._should_set_millisecond"},
+    "dict-to-stix2-extensions-nondict": {"parsing.dict_to_stix2"},
+    "dict-to-stix2-extension-entry-nondict": {"parsing.dict_to_stix2"},
+    "detect-bundle-without-objects": {"utils.detect_spec_version"},
+    "detect-nested-object-without-type": {"utils.detect_spec_version"},
+    "tlp-without-definition": {"markings.utils.check_tlp_marking", "base._STIXBase.__getitem__"},
+    "indicator20-empty-pattern-validator-crash": {"v20.sdo.Indicator._check_object_constraints"},
+    "indicator21-empty-pattern-validator-crash": {"v21.sdo.Indicator._check_object_constraints"},
+    "json-text-nesting-depth": {"utils._get_dict"},
+}
+
+SIGNATURES = {}     # (class, function, source line, normalised message) of each witness's escape -> finding id
+
+
+def signature(r):
+    msg = re.sub(r"'\w+' object", "object", r.get("msg") or "")
+    msg = re.sub(r"type object '\w+'", "type object", msg)
+    return (r.get("cls"), r.get("fn"), r.get("line"), msg[:60])
+
+
 def classify(case, r, mset):
-    """finding id of a non-family outcome: the unguarded site the model attributes it to"""
+    """finding id of a non-family outcome: the unguarded site the model attributes it to (the function on the
+    traceback must be that site's); without a model set, the exact signature of a witness's escape"""
     cls = r.get("cls")
     if cls == "RecursionError":
         sites = [s for n, s in (mset or ()) if n == "RecursionError" and s and s != "lib"]
@@ -645,8 +672,13 @@ def classify(case, r, mset):
         fn = (r.get("fn") or "interpreter").replace(".", "-").replace("_", "-").strip("-").lower()
         return "C17-recursion-" + re.sub("-+", "-", fn)
     sites = sorted(s for n, s in (mset or ()) if n == cls and s and s != "lib")
+    # (DataStoreMixin.add catches an AttributeError of the sink and raises a new one itself)
+    via_store = case["op"] == "store_add" and r.get("fn") == "datastore.DataStoreMixin.add" and cls == "AttributeError"
+    sites = [s for s in sites if via_store or r.get("fn") in SITE_FNS.get(s, ())]
     if sites:
         return "C17-" + sites[0]
+    if not mset or all(s in (None, "lib") for _, s in mset):
+        return SIGNATURES.get(signature(r))
     return None
 
 
@@ -690,6 +722,8 @@ def run_witnesses():
     for t, r in zip(tags, res):
         if r["out"] == "Raise" and not r.get("family"):
             unguarded.append(t)
+            if r.get("cls") != "RecursionError":
+                SIGNATURES[signature(r)] = "C17-" + t
     return unguarded, dict(zip(tags, res))
 
 
